@@ -65,6 +65,9 @@ class RawStream(FM.FormulaStream):
     n_thorough = 10000
 
     def gen(self, rng, tier):
+        for same in (True, False):          # x * x by pushing "x" twice: same receiver object / a fresh one
+            yield {"kind": "raw", "wellformed": True, "calls": [["m", 1, False], ["o", "*"], ["m", 1, False] + ([True] if same else [])],
+                   "rows": [{"1": 3}, {"1": -2}, {"1": "none"}]}
         n = self.n_quick if tier == "quick" else self.n_thorough
         for _ in range(n):
             yield FM.gen_raw_case(rng)
@@ -99,6 +102,8 @@ class RawStream(FM.FormulaStream):
                 flags.setdefault(c[1], set()).add(c[2])
         if any(len(v) > 1 for v in flags.values()):
             out.append("same_name_two_flags(first_wins)")
+        if any(c[0] == "m" and len(c) > 3 and c[3] for c in case["calls"]):
+            out.append("name_pushed_again_with_the_same_receiver_object")
         return out + FM.row_labels(case)
 
 
